@@ -199,4 +199,29 @@ def wildRoundtrip1 (e : BEnv) (Γ : Ctx) (cfg : ParserConfig) (isDatatype : Str 
   let evs ← genAnyType e Γ {} (depthTree t + 1) v var none
   eventsTree isDatatype evs
 
+/-! ### the abstract writer with prefixes for `is_xsi_type` strings
+
+`EventHandler.add_attribute` turns a `str` value in Clark form into a `QName` when the attribute
+is `xsi:type` or the value names a builtin datatype, and `encode_data` then allocates a prefix for
+its namespace.  `Xs.Bind.collectUris` only looks at payloads that are already QNames, so
+`Xs.Bind.eventsTree` writes such values without prefix; `eventsTreeQ` repairs that (requested as a
+change of `Bind/Write.lean`).  On events without such attributes both agree. -/
+
+def evUrisQ (isDatatype : Str → Bool) : Ev → List Str
+  | .attr q (.prim (.str s)) =>
+    if s.head? = some '{' && (q = xsiType || isDatatype s) then (targetUri s).toList else []
+  | .attr _ d => dataUris d
+  | .data d => dataUris d
+  | _ => []
+
+def collectUrisQ (isDatatype : Str → Bool) (evs : List Ev) : List Str :=
+  ((evs.map (evUrisQ isDatatype)).flatten).eraseDups
+
+def eventsTreeQ (isDatatype : Str → Bool) (evs : List Ev) : Except Err Tree := do
+  let m := prefixMap (collectUrisQ isDatatype evs)
+  let sax ← eventsSax m isDatatype evs
+  match saxTree m sax [] none with
+  | some t => return t
+  | none => throw (.serializer "not a well-formed document")
+
 end Xs.Generic
